@@ -16,7 +16,7 @@ ENGINE = 'crosshair'
 SOLVER_NAME = 'CrossHair 0.0.110 (symbolic execution of Python, z3 inside); solver time = wall time of the CrossHair runs'
 LEVEL = 'other'
 TECHNIQUE = 'CrossHair (z3-backed symbolic execution) of the real AlgebraicReductionRule/IdentityRule/HomothetyRule.apply on symbolic chains over a rule table extracted from the real registry; real chains enumerated to validate the abstraction'
-EXPLANATION = ('Layer 1: every registered binary rule is attempted on every ordered pair of 24 real operator instances; the outcome is the abstract '
+EXPLANATION = ('Layer 1: every registered binary rule is attempted on every ordered pair of 28 real operator instances (incl. a duplicate-free indexing of two axes); the outcome is the abstract '
                'rule table, which must contain every documented pattern (and must not rewrite the listed non-patterns). Layer 2: the REAL driver code '
                '(AlgebraicReductionRule.apply, IdentityRule.apply, HomothetyRule.apply) is executed by CrossHair on a SYMBOLIC chain (List[int] of kind '
                'codes incl. scalar and identity operators on every structure, symbolic scalar values), with the module-level names of rules.py bound to '
@@ -28,7 +28,7 @@ EXPLANATION = ('Layer 1: every registered binary rule is attempted on every orde
                'inserting a composition of two identities (operands that simplify through their own reduce()) must give the same result.')
 FUNCTIONS = ['AlgebraicReductionRule.apply', 'IdentityRule.apply', 'HomothetyRule.apply', 'AbstractBinaryRule.check', 'InverseBinaryRule.check', 'BINARY_RULE_REGISTRY and every registered rule (table layer)',
              'CompositionOperator.reduce (layer 3)']
-BOUNDS = {'quick': 'layer 2: chains of length 2-3 over 40 codes (26 kinds + scalar/identity on 7 structures) and chains X, p, q, Y[, Z] of length 4-5 over a 13-code alphabet where p @ q is a vanishing pattern, scalar values in -3..3; layer 3: all real chains of length 2-3 and all real chains X @ (vanishing pair) @ Y [@ Z]',
+BOUNDS = {'quick': 'layer 2: chains of length 2-3 over 42 codes (28 kinds + scalar/identity on 7 structures) and chains X, p, q, Y[, Z] of length 4-5 over a 13-code alphabet where p @ q is a vanishing pattern, scalar values in -3..3; layer 3: all real chains of length 2-3 and all real chains X @ (vanishing pair) @ Y [@ Z]',
           'thorough': 'quick tier + all symbolic chains of length 4 over an 8-code alphabet (A, A.I, U, U.T, Rot, Rot.T, HWP, polariser); layer 3: real chains of length <= 4'}
 STUBS = ['rules.HomothetyOperator / IdentityOperator / jnp / BINARY_RULE_REGISTRY bound to table-driven stubs inside the CrossHair run (the driver code itself is the real one)']
 ASSUMPTIONS = ['chains longer than the bound are outside the claim', 'identities produced by a rule mid-scan are not required to be removed (the property does not demand it)']
